@@ -212,8 +212,6 @@ def expand_extract(ex, canary=False):
     if n:
         fired.append('R7b loop-value x%d' % n)
     text = _apply_rules(ex, text, fired)
-    if canary and mode == 'diverge':
-        text = text.replace('vx_diverge()', 'vx_nop()').replace('vx_assert_or_diverge(', 'vx_nop_b(')
     # loop annotations
     lps = rsrc.loops(text)
     for ordinal in sorted(ex.loops, reverse=True):
@@ -223,26 +221,45 @@ def expand_extract(ex, canary=False):
         text = text[:bo] + '\n' + ex.loops[ordinal].rstrip('\n') + '\n' + text[bo:]
     new_sig = ex.as_sig if ex.as_sig else sig
     contract = ex.contract
-    if canary and mode != 'diverge':
-        contract = canary_contract(contract)
     if ex.external_body:
         emitted = '#[verifier::external_body]\n' + new_sig + '\n' + contract + '{ unimplemented!() }\n'
     else:
         emitted = new_sig + '\n' + contract + text + '\n'
+    twin = None
+    if canary and not ex.external_body:
+        # twin: same body, name suffixed, postcondition `false` (must-panic variants: the diverging
+        # helpers become no-ops instead).  The original is emitted unchanged so callers see the real contract.
+        tsig = re.sub(r'\bfn\s+(\w+)', lambda q: 'fn ' + q.group(1) + '__canary', new_sig, count=1)
+        if mode == 'diverge':
+            tbody = text.replace('vx_diverge()', 'vx_nop()').replace('vx_assert_or_diverge(', 'vx_nop_b(')
+            twin = tsig + '\n' + contract + tbody + '\n'
+        else:
+            twin = tsig + '\n' + canary_contract(contract) + text + '\n'
     ex.meta = dict(id=ex.id, kind='fn', file=ex.file, line=rsrc.line_of(src, loc['start']),
                    end_line=rsrc.line_of(src, loc['body_close']),
                    sha256=hashlib.sha256(orig.encode()).hexdigest(), rules=fired,
                    n_loops=n_loops_orig, orig=orig, emitted=emitted, orig_sig=rsrc.norm(sig),
                    external_body=ex.external_body, panics=mode, cfg=ex.cfg,
-                   sig_lines=new_sig.count('\n') + 1, contract_lines=contract.count('\n'))
+                   sig_lines=new_sig.count('\n') + 1, contract_lines=contract.count('\n'), twin=twin)
     return emitted
+
+
+def _after_ensures(m, pos):
+    """insertion point after `ensures` and an optional `#![trigger ..]` attribute."""
+    k = pos
+    while k < len(m) and m[k] in ' \t\n':
+        k += 1
+    if m.startswith('#![', k):
+        return rsrc.match_close(m, k + 2, '[', ']') + 1
+    return pos
 
 
 def canary_contract(contract):
     m = mask(contract)
     mo = re.search(r'\bensures\b', m)
     if mo:
-        return contract[:mo.end()] + ' false,' + contract[mo.end():]
+        at = _after_ensures(m, mo.end())
+        return contract[:at] + ' false,' + contract[at:]
     mo = re.search(r'\bdecreases\b', m)
     if mo:
         return contract[:mo.start()] + 'ensures false,\n' + contract[mo.start():]
@@ -250,11 +267,11 @@ def canary_contract(contract):
 
 
 def canary_lemmas(text):
-    """In free template text: every `proof fn` gets `false,` inserted after its `ensures`."""
+    """In free template text: after every `proof fn` with an `ensures`, append a twin `NAME__canary`
+    whose postcondition starts with `false`.  The original stays, so callers are unaffected."""
     out, last = [], 0
     m = mask(text)
     for mo in re.finditer(r'\bproof\s+fn\s+(\w+)', m):
-        # header ends at first '{' at paren depth 0
         k, depth = mo.end(), 0
         while k < len(m):
             ch = m[k]
@@ -265,14 +282,19 @@ def canary_lemmas(text):
             elif ch == '{' and depth == 0:
                 break
             k += 1
+        if k >= len(m):
+            continue
+        close = rsrc.match_close(m, k)
         hdr = m[mo.end():k]
         e = re.search(r'\bensures\b', hdr)
         if not e:
             continue
-        pos = mo.end() + e.end()
-        out.append(text[last:pos])
-        out.append(' false,')
-        last = pos
+        pos = _after_ensures(m, mo.end() + e.end())
+        name_end = mo.end()
+        twin = 'proof fn ' + mo.group(1) + '__canary' + text[name_end:pos] + ' false,' + text[pos:close + 1]
+        out.append(text[last:close + 1])
+        out.append('\n' + twin + '\n')
+        last = close + 1
     out.append(text[last:])
     return ''.join(out)
 
@@ -325,7 +347,7 @@ def generate(template_text, canary=False):
     segs = parse(template_text)
     out_lines = 0
     out = []
-    extracts, lemmas, trusted = [], [], []
+    extracts, lemmas, trusted, twins = [], [], [], []
     for kind, payload, tline in segs:
         if kind == 'text':
             text = payload
@@ -349,7 +371,12 @@ def generate(template_text, canary=False):
             extracts.append(meta)
             out.append(emitted)
             out_lines += emitted.count('\n') + 1
-    return '\n'.join(out) + '\n', dict(extracts=extracts, lemmas=lemmas, trusted=trusted)
+            if canary and meta.get('twin'):
+                tw = meta['twin'].rstrip('\n')
+                twins.append(dict(id=ex.id, gen_start=out_lines + 1, gen_end=out_lines + tw.count('\n') + 1))
+                out.append(tw)
+                out_lines += tw.count('\n') + 1
+    return '\n'.join(out) + '\n', dict(extracts=extracts, lemmas=lemmas, trusted=trusted, twins=twins)
 
 
 def diff_of(meta, n=2):
